@@ -511,6 +511,7 @@ pub fn c13(tier: Tier, _seed: u64) -> Prop {
             }
             json!({"states": ins.max(1), "transitions": ins.max(1), "traces_validated_against_impl": runs, "complete_runs": runs})
         }),
+        profiles: vec!["release"],
     }
 }
 
